@@ -351,7 +351,17 @@ type LoopContract struct {
 	used       bool
 }
 
+// AssertHint: an intermediate assertion (proved, then assumed) anchored before/after the first statement whose
+// source text starts with Anchor.
+type AssertHint struct {
+	When   string // before | after
+	Anchor string
+	Clause *Clause
+	used   bool
+}
+
 type FuncContract struct {
+	Asserts    []*AssertHint
 	PkgPath    string
 	Key        string // "(*T).M" or "T.M" or "F"
 	Properties []string
@@ -422,7 +432,7 @@ var clauseKeywords = map[string]bool{
 	"func": true, "loop": true, "requires": true, "ensures": true, "invariant": true, "modifies": true,
 	"property": true, "bind": true, "nopanic": true, "assumed": true, "ghost": true, "pure": true,
 	"axiom": true, "lemma": true, "let": true, "decreases": true, "mode": true, "unproved": true,
-	"package": true, "theory": true, "cases": true, "uses": true, "opt": true, "free": true, "end": true, "ghostfield": true, "purefn": true,
+	"package": true, "theory": true, "cases": true, "uses": true, "opt": true, "free": true, "end": true, "ghostfield": true, "purefn": true, "assert": true,
 }
 
 type rawClause struct {
@@ -558,6 +568,34 @@ func (cs *Contracts) parseFile(path string, pkgPath string) error {
 			if cur != nil {
 				cur.Mode = strings.TrimSpace(r.text)
 			}
+		case "assert":
+			// assert before|after "stmt text": expr
+			if cur == nil {
+				return fmt.Errorf("%s:%d: assert outside func", path, r.line)
+			}
+			t := strings.TrimSpace(r.text)
+			when := ""
+			for _, w := range []string{"before", "after"} {
+				if strings.HasPrefix(t, w+" ") {
+					when = w
+					t = strings.TrimSpace(t[len(w):])
+				}
+			}
+			if when == "" || !strings.HasPrefix(t, "\"") {
+				return fmt.Errorf("%s:%d: assert needs before|after \"anchor\": expr", path, r.line)
+			}
+			end := strings.Index(t[1:], "\"")
+			if end < 0 {
+				return fmt.Errorf("%s:%d: unterminated anchor", path, r.line)
+			}
+			anchor := t[1 : 1+end]
+			rest := strings.TrimSpace(t[2+end:])
+			rest = strings.TrimPrefix(rest, ":")
+			c, err := mkClause("assert", rawClause{kw: "assert", text: strings.TrimSpace(rest), line: r.line})
+			if err != nil {
+				return err
+			}
+			cur.Asserts = append(cur.Asserts, &AssertHint{When: when, Anchor: anchor, Clause: c})
 		case "nopanic":
 			if cur != nil {
 				if strings.TrimSpace(r.text) == "explicit" {
